@@ -99,10 +99,12 @@ def same_basis_same_waveform_and_independent_objects_draw_independently():
     t = _grid()
     a = new(FULL, t, (lo, hi), 1, rms)
     b = new(FULL, t, (lo, hi), 1, rms)
+    ts = symarr("ts")
+    before = a._functions[0](ts)              # a has already been evaluated with the basis it drew itself ...
     for o in (a, b):
         o.freqs, o.amps, o.phases = freqs, amps, phases
-    ts = symarr("ts")
     i = fresh_index("i", len(ts))
+    # ... and still follows the basis it publishes now (what a file reader relies on when it restores a stored basis)
     prove("identical-waveforms-from-the-same-basis", eq(a._functions[0](ts)[i], b._functions[0](ts)[i]))
 
 
@@ -202,6 +204,20 @@ def fft_noise_default_amplitudes_have_unit_mean_square():
 
 
 # ---------------------------------------------------------------------------
+@harness(clause="reproducible")
+def fft_noise_follows_its_published_basis_whatever_was_evaluated_before():
+    """two objects on the same grid and band publish the same frequencies; once one is given the other's amplitudes and
+    phases it produces the other's waveform - also when it had been evaluated (values, with_times) with its own basis before"""
+    rms = real("rms", 1e-9, 1)
+    a, t = _fft_object("a", rms)
+    b, _ = _fft_object("b", rms)
+    ts = symarr("ts", sample=(-1e-6, 1e-6))
+    i = fresh_index("i", len(ts))
+    before = a._functions[0](ts)
+    a.amps, a.phases = b.amps, b.phases
+    prove("identical-waveforms-from-the-same-basis-even-after-an-earlier-evaluation", eq(a._functions[0](ts)[i], b._functions[0](ts)[i]))
+
+
 # bounded stand-ins: what needs the DFT synthesis formula and statistics
 # ---------------------------------------------------------------------------
 
